@@ -11,7 +11,11 @@ Boundaries are
     child only; these calls raise no audit event).
 At every boundary the child logs (role, raw event, snapshot of the directory
 *before* the call).  mode "kill": os._exit at boundary k (nothing runs after);
-mode "fault": the k-th call raises OSError(EIO) (handlers run).
+mode "fault": the k-th call raises an OSError (handlers run).  The fault is instantiated with the
+error a real file system can return there (variant "<ERRNO>:<once|persist>": EIO, EACCES ->
+PermissionError, ENOENT -> FileNotFoundError, ENOSPC) and either once or persistently: with
+"persist" every later call of the same kind on the same path(s) in that run fails again, so a
+retry / fallback that re-issues the call does not get through.
 
 Nothing here decides whether an outcome is acceptable: that is AtomicWrite.tla.
 """
@@ -51,7 +55,11 @@ _WRITE_EVENTS = {
 
 
 class Injector:
-    def __init__(self, root: Path, dest: Path, k: int, mode: str, logfd: int):
+    def __init__(self, root: Path, dest: Path, k: int, mode: str, logfd: int, variant: str | None = None):
+        err, _, rep = (variant or "EIO:once").partition(":")
+        self.errno = getattr(errno, err)
+        self.persist = rep == "persist"
+        self.failing_site = None
         self.root = str(root)
         self.dest = str(dest)
         self.k = k
@@ -162,6 +170,10 @@ class Injector:
         kind = "call"
         if self.idx == self.k and self.mode in ("kill", "fault"):
             kind = self.mode
+            if kind == "fault" and self.persist:
+                self.failing_site = raw
+        elif self.failing_site is not None and raw == self.failing_site:
+            kind = "fault"  # the same call on the same path is issued again: it fails again
         self.busy = True
         try:
             self.log({"i": self.idx, "role": role, "raw": raw, "kind": kind, "snap": self.snapshot()})
@@ -170,7 +182,7 @@ class Injector:
         if kind == "kill":
             os._exit(KILL_STATUS)
         if kind == "fault":
-            raise OSError(errno.EIO, f"C19 injected fault at boundary {self.idx} ({role})")
+            raise OSError(self.errno, f"C19 injected {errno.errorcode[self.errno]} at boundary {self.idx} ({role})")
 
     def hook(self, event, args):
         if not self.active or self.busy or event not in _WRITE_EVENTS:
@@ -259,7 +271,7 @@ def install(inj: Injector):
     sys.addaudithook(inj.hook)
 
 
-def run_in_child(root: Path, dest: Path, k: int, mode: str, logpath: Path, action, timeout=60):
+def run_in_child(root: Path, dest: Path, k: int, mode: str, logpath: Path, action, timeout=60, variant=None):
     """fork; in the child install the injector and call action(); returns (status, events, end)
 
     status: "exited" (child ran to the end of action), "killed" (injected kill), "died" (anything else)
@@ -272,7 +284,7 @@ def run_in_child(root: Path, dest: Path, k: int, mode: str, logpath: Path, actio
         code = 3
         try:
             signal.alarm(timeout)
-            inj = Injector(root, dest, k, mode, logfd)
+            inj = Injector(root, dest, k, mode, logfd, variant)
             install(inj)
             how, err = "ok", None
             inj.active = True
